@@ -9,7 +9,7 @@ func init() {
 			"(H2) also: what is handed to an encoder is computed for the element at hand -- a variable that can keep its value from a previous trip around a loop is not accepted as a source; (SCAN) no loop of the hasher that encodes something per element is left by a break (a `break` for a `continue` after a missing arrival skips the departure); (H3) the primitives are self-delimiting (length before bytes, presence flag on every path, value only on the non-nil edge); " +
 			"(H4) flush discipline (direct hash writes only in flush/string, flush between buffered length and direct write, final flush); (G15) every value reaching binary.Write has a fixed size; (H5) on the way into the hash no numeric value is converted to a type that cannot hold it (float to integer, a narrower integer or float); determinism via no map range / clock in the hasher. " +
 			"The destination binary.Write encodes into takes everything it is handed (a growable standard buffer, or a writer of the module that repeats its copy for the rest of its argument); the hasher never compares time.Time values as structs. " +
-			"Not decided: encoding/binary and the hash function themselves.",
+			"Not decided: encoding/binary and the hash function themselves. No numeric helper between a field and its encoder answers a constant on one path and its argument on another (folding distinct values into one).",
 		Assumptions: []string{"hash.Hash implementations consume Write calls as a byte stream"},
 		Rules: []Rule{
 			{Name: "SCAN", Doc: "a loop that does something for each element is not left early (no break out of a processing loop)", MinInstances: 1, Run: func(c *Ctx) { runFullScan(c, hashFns(c), "SCAN") }},
